@@ -793,6 +793,8 @@ func run(sel int, in []int64) []int64 {
 		return runCleanup(in)
 	case 4:
 		return runPipeline(in)
+	case 5:
+		return runCalcRealCtor(in)
 	}
 	panic("unknown selector")
 }
@@ -824,7 +826,7 @@ func laws(sel int, in, got []int64, law func(lsel int, lin []int64, sig string))
 		}
 	}
 	switch sel {
-	case 1:
+	case 1, 5:
 		r := &rd{t: in}
 		ratio := r.z()
 		pops := r.pops()
@@ -918,8 +920,8 @@ func laws(sel int, in, got []int64, law func(lsel int, lin []int64, sig string))
 			if code == 0 && (res == 1 || res == 2) {
 				law(110, cat([]int64{res}, encPods(cur), calls, encList(after)), "")
 			} else {
-				// nothing may be evicted by a failed / foreign event (given as one cpu pass)
-				law(111, cat(encPods(cur), []int64{1}, calls, []int64{0}, encList(after)), "")
+				// nothing may be evicted by a failed / foreign event
+				law(112, cat(encPods(cur), calls, encList(after)), "")
 			}
 			next := []podTok{}
 			for _, id := range after {
